@@ -28,6 +28,14 @@ Two further streams make the verdict independent of how the model is compiled:
   codegen=True): every call must give the expected verdict, and a cached model must return the
   same delay states and delay-argument values as the compiled one.
 
+* "expand": expand_vectors=True (sometimes with expand_mx) on models with array variables of every
+  category, scalar / vector-valued / matrix-valued delays (`B = delay(3*A, tau)`) and durations on
+  array elements (`xs[1]`, `p + av[3]`, `der(xs[2])`, `am[1,2]`, `sum(av)`, `uv[2]`): verdict by
+  category; for accepted models every scalar delay state must carry the delayed expression of its
+  own element — enforced through the residuals, which tie target element and delay input.  This
+  stream has no Lean tie (array-valued expressions are outside the model's fragment); the
+  mechanism is stated by `postcheck_invariant_under_expansion`.
+
 Tie: the flat class captured at the `annotate_states` stage boundary (symbol table, generic AST,
 typed equations) is sent to the Lean model `PymocaVerif.Model.Delay` (driver `drv_c22`), which
 classifies the symbols (model of C10), translates the delays, runs the duration check and
@@ -51,7 +59,8 @@ RULE = ("one case = one generated Modelica model with constants, parameters (sca
         "algebraic) and optionally a for-loop over vector variables; 1-4 delay() calls in equations, initial equations and "
         "loop bodies (also nested in a delayed expression or in a duration), durations drawn from every category mix, also "
         "reaching the offending symbol only below if-conditions / floor / ceil / sign; optionally a 2-D algebraic array; "
-        "options default / unroll_loops=False / expand_mx; a fixed seed-independent family of 2-4-delay models with the "
+        "options default / unroll_loops=False / expand_mx; stream expand: expand_vectors=True with vector- and matrix-valued "
+        "delays and durations on elements of array variables of every category; a fixed seed-independent family of 2-4-delay models with the "
         "single offending duration at every position between literal/parameter durations; stream simp: eliminated alias/eliminable variables in durations "
         "under the simplification options; stream cache: two calls on one folder with cache=True / codegen=True. non-trivial = at least one delay whose duration mentions a "
         "declared symbol, or at least two delays; distinct = distinct case description")
@@ -513,6 +522,310 @@ class Gen:
             opts = {"codegen": True} if r.random() < 0.12 else {"cache": True}
         return {"kind": "text", "stream": self.stream, "name": "M", "text": "\n".join(lines) + "\n", "options": opts,
                 "syms": S, "eqs": sub_eqs + eqs, "ieqs": ieqs}
+
+
+# =============================================================================================
+# stream "expand": array-valued delays and durations on array elements under expand_vectors=True
+#   expression forms: ["lit", q] ["time"] ["s", name] (scalar) ["e", name, idx] (element, idx = [i] or [i, j])
+#   ["a", name] (whole array, inside an array-valued equation) ["der", x] ["sum", name] ["op", o, a, b]
+# =============================================================================================
+def xname(name, idx):
+    return "%s[%s]" % (name, ",".join(str(i) for i in idx))
+
+
+def xrender(e):
+    t = e[0]
+    if t == "lit":
+        return render(e)
+    if t == "time":
+        return "time"
+    if t in ("s", "a"):
+        return e[1]
+    if t == "e":
+        return xname(e[1], e[2])
+    if t == "der":
+        return "der(%s)" % xrender(e[1])
+    if t == "sum":
+        return "sum(%s)" % e[1]
+    if t == "op":
+        return "(%s %s %s)" % (xrender(e[2]), e[1], xrender(e[3]))
+    raise HarnessError("bad xexpr %r" % (e,))
+
+
+def xatoms(e, acc):
+    t = e[0]
+    if t == "time":
+        acc.append(("time",))
+    elif t in ("s", "a", "sum"):
+        acc.append(("var", e[1]))
+    elif t == "e":
+        acc.append(("var", e[1]))
+    elif t == "der":
+        inner = xatoms(e[1], [])
+        acc.extend(("der", a[1]) for a in inner)
+    elif t == "op":
+        xatoms(e[2], acc)
+        xatoms(e[3], acc)
+    return acc
+
+
+def xeval(e, pt, arrays, elem=None):
+    """Exact value under expansion: every array element is a scalar symbol `name[i,j]`."""
+    t = e[0]
+    if t == "lit":
+        return Fraction(e[1][0], e[1][1])
+    if t == "time":
+        return pt.time
+    if t == "s":
+        return pt.get(e[1], 0)
+    if t == "e":
+        return pt.get(xname(e[1], e[2]), 0)
+    if t == "a":
+        return pt.get(xname(e[1], elem), 0)
+    if t == "der":
+        x = e[1]
+        nm = x[1] if x[0] == "s" else xname(x[1], x[2] if x[0] == "e" else elem)
+        return pt.get("der(%s)" % nm, 0)
+    if t == "sum":
+        return sum(pt.get(xname(e[1], ix), 0) for ix in indices(arrays[e[1]]["shape"]))
+    if t == "op":
+        a, b = xeval(e[2], pt, arrays, elem), xeval(e[3], pt, arrays, elem)
+        return {"+": a + b, "-": a - b, "*": a * b}[e[1]]
+    raise HarnessError("bad xexpr %r" % (e,))
+
+
+def indices(shape):
+    import itertools
+    return [list(ix) for ix in itertools.product(*[range(1, n + 1) for n in shape])]  # row by row
+
+
+class ExpandGen:
+    def __init__(self, rng):
+        self.rng = rng
+
+    def make(self):
+        r = self.rng
+        S = {"c0": {"cat": "const", "dim": 0, "value": [2, 1]}, "p0": {"cat": "param", "dim": 0, "value": [3, 1]},
+             "uf0": {"cat": "ufix", "dim": 0}, "u0": {"cat": "ufree", "dim": 0}, "x0": {"cat": "state", "dim": 0},
+             "y0": {"cat": "alg", "dim": 0}}
+        decl = ["constant Real c0 = 2;", "parameter Real p0 = 3;", "input Real uf0(fixed = true);", "input Real u0;",
+                "Real x0;", "Real y0;"]
+        A = {}  # arrays: name -> {"cat", "shape"}
+
+        def arr(name, cat, shape, text):
+            A[name] = {"cat": cat, "shape": shape}
+            S[name] = {"cat": cat, "dim": 1}
+            decl.append(text)
+
+        n, m = r.choice([2, 3]), r.choice([2, 3])
+        rr, cc = r.choice([2, 3]), r.choice([2, 3])
+        arr("pv", "param", [2], "parameter Real pv[2] = {1, 2};")
+        arr("ufv", "ufix", [2], "input Real ufv[2](each fixed = true);")
+        arr("uv", "ufree", [2], "input Real uv[2];")
+        arr("xs", "state", [n], "Real xs[%d];" % n)
+        arr("av", "alg", [m], "Real av[%d];" % m)
+        arr("am", "alg", [rr, cc], "Real am[%d,%d];" % (rr, cc))
+        has_xm = r.random() < 0.5
+        if has_xm:
+            arr("xm", "state", [2, 2], "Real xm[2,2];")
+        scal = [["s", "x0"], ["s", "y0"], ["s", "u0"], ["s", "p0"], ["lit", [1, 1]], ["lit", [2, 1]]]
+
+        def small():
+            a, b = r.sample(scal, 2)
+            return ["op", r.choice(["+", "*"]), ["op", "*", lit(r.choice([2, 3, Fraction(1, 2)])), a], b]
+
+        eqs = [["eq", ["der", ["s", "x0"]], ["op", "+", ["s", "u0"], ["s", "uf0"]]],
+               ["eq", ["s", "y0"], ["op", "+", ["op", "*", lit(2), ["s", "x0"]], lit(1)]]]
+        for ix in indices(A["xs"]["shape"]):
+            eqs.append(["eq", ["der", ["e", "xs", ix]], small()])
+        for nm in ("av", "am"):
+            for ix in indices(A[nm]["shape"]):
+                eqs.append(["eq", ["e", nm, ix], small()])
+        if has_xm:
+            for ix in indices([2, 2]):
+                eqs.append(["eq", ["der", ["e", "xm", ix]], small()])
+        allowed = [["s", "p0"], ["s", "c0"], ["s", "uf0"], ["e", "pv", [r.randint(1, 2)]], ["e", "ufv", [r.randint(1, 2)]],
+                   lit(2), lit(Fraction(1, 2))]
+
+        def elem(nm):
+            return ["e", nm, r.choice(indices(A[nm]["shape"]))]
+
+        offenders = [elem("xs"), elem("av"), elem("am"), elem("uv"), ["der", elem("xs")], ["sum", "av"], ["s", "x0"],
+                     ["s", "y0"], ["time"], ["sum", "xs"]]
+        if has_xm:
+            offenders += [elem("xm"), ["der", elem("xm")]]
+
+        def duration(bad):
+            a = r.choice(allowed)
+            if bad:
+                o = r.choice(offenders)
+                k = r.random()
+                return o if k < 0.3 else ["op", "+", a, o] if k < 0.7 else ["op", "+", ["op", "*", lit(2), o], a]
+            b = r.choice(allowed)
+            return a if r.random() < 0.4 else ["op", r.choice(["+", "*"]), a, b]
+
+        kinds = r.sample(["scalar", "vector", "matrix", "scalar2"], r.randint(1, 4))
+        bad_at = r.randrange(len(kinds)) if r.random() < 0.5 else None
+        delays = []
+        for j, kd in enumerate(kinds):
+            d = duration(j == bad_at)
+            if kd in ("scalar", "scalar2"):
+                tgt = "z%d" % j
+                S[tgt] = {"cat": "alg", "dim": 0}
+                decl.append("Real %s;" % tgt)
+                a = r.choice([small(), ["op", "+", elem("av"), ["s", "x0"]], ["op", "*", lit(2), elem("am")]])
+                delays.append({"id": j, "target": ["s", tgt], "shape": None, "expr": a, "dur": d})
+            else:
+                src = "av" if kd == "vector" else "am"
+                tgt = "w%d" % j
+                shp = A[src]["shape"]
+                arr(tgt, "alg", shp, "Real %s[%s];" % (tgt, ",".join(str(x) for x in shp)))
+                a = ["op", "*", lit(r.choice([2, 3])), ["a", src]]
+                if r.random() < 0.5:
+                    a = ["op", "+", a, r.choice([lit(1), ["s", "x0"]])]
+                delays.append({"id": j, "target": ["a", tgt], "shape": shp, "expr": a, "dur": d})
+        lines = ["model M"] + ["  " + x for x in decl] + ["equation"]
+        lines += ["  %s = %s;" % (xrender(q[1]), xrender(q[2])) for q in eqs]
+        lines += ["  %s = delay(%s, %s);" % (xrender(dl["target"]), xrender(dl["expr"]), xrender(dl["dur"])) for dl in delays]
+        lines += ["end M;"]
+        opts = {"expand_vectors": True}
+        if r.random() < 0.25:
+            opts["expand_mx"] = True
+        return {"kind": "text", "stream": "expand", "name": "M", "text": "\n".join(lines) + "\n", "options": opts,
+                "syms": S, "arrays": A, "xeqs": eqs, "xdelays": delays, "eqs": [], "ieqs": []}
+
+
+def xexpected_reject(case):
+    for dl in case["xdelays"]:
+        for a in xatoms(dl["dur"], []):
+            c = cat_of_atom(a, case["syms"])
+            if c in DISALLOWED:
+                return "duration of delay #%d (%s) depends on %s %s" % (dl["id"], xrender(dl["dur"]), c, a[1:] and a[1] or "")
+    return None
+
+
+def check_expand(ctx, case):
+    """expand_vectors=True: verdict by category; for an accepted model every scalar delay state must carry the delayed
+    expression of *its own* element (checked through the residuals: the element of the target that the equations tie to
+    a delay input must be the element whose delayed expression the argument function returns for that input)."""
+    import random
+    H.quiet_pymoca()
+    rng = random.Random(json.dumps(case["text"]))
+    folder = write_model(ctx, case)
+    model, verdict, msg = one_call(folder, case, None)
+    why = xexpected_reject(case)
+    if verdict.startswith("raise:"):
+        ctx.violation("transfer_model raised %s (neither acceptance nor the delay-duration rejection)" % verdict[6:], case,
+                      expected="reject" if why else "accept", observed="%s: %s" % (verdict[6:], msg[:300]), kind="input")
+    elif why and verdict == "accept":
+        ctx.violation("transfer_model accepted a model whose delay duration depends on a disallowed category", case,
+                      expected="ValueError: " + why, observed="accepted", kind="input")
+    elif not why and verdict == "reject":
+        ctx.violation("transfer_model rejected a model whose delay durations depend only on constants, parameters and fixed inputs",
+                      case, expected="accepted", observed="ValueError: " + msg[:200], kind="input")
+    elif verdict == "accept":
+        arrays = case["arrays"]
+        try:
+            pts = [Point(rng, model, case) for _ in range(2)]
+            outs = [[flat_out(o) for o in call(model.delay_arguments_function, pt.args())] for pt in pts]
+            dae = [sorted(flat_out(call(model.dae_residual_function, pt.args())[0])) for pt in pts]
+        except Exception as e:
+            ctx.violation("accepted model: building/evaluating the delay-argument or residual functions raised %s"
+                          % type(e).__name__, case, expected="functions of an accepted model evaluate",
+                          observed="%s: %s" % (type(e).__name__, str(e)[:300]), kind="input")
+            return verdict
+        names = list(model.delay_states)
+        want_n = sum(len(indices(dl["shape"])) if dl["shape"] else 1 for dl in case["xdelays"])
+        if len(names) != want_n or len(outs[0]) != 2 * want_n:
+            ctx.violation("number of scalar delay states differs from the number of delayed elements", case,
+                          expected=want_n, observed=names, kind="input")
+            return verdict
+        pi, free = {}, set(range(len(names)))
+        for dl in case["xdelays"]:
+            for ix in (indices(dl["shape"]) if dl["shape"] else [None]):
+                want = [([xeval(dl["expr"], pt, arrays, ix)], [xeval(dl["dur"], pt, arrays, ix)]) for pt in pts]
+                match = next((k for k in sorted(free)
+                              if all(out[2 * k] == w[0] and out[2 * k + 1] == w[1] for out, w in zip(outs, want))), None)
+                if match is None:
+                    ctx.violation("no output pair of delay_arguments_function equals the delayed expression and duration "
+                                  "of an element of a delay() call", case,
+                                  expected="delay #%d element %s: %s | %s" % (dl["id"], ix, xrender(dl["expr"]), xrender(dl["dur"])),
+                                  observed={"delay_states": names, "outputs_at_point_0": [[str(x) for x in o] for o in outs[0]]},
+                                  kind="input")
+                    return verdict
+                pi[(dl["id"], tuple(ix) if ix else None)] = match
+                free.discard(match)
+        for pt, g in zip(pts, dae):
+            want = [xeval(q[1], pt, arrays) - xeval(q[2], pt, arrays) for q in case["xeqs"]]
+            for dl in case["xdelays"]:
+                for ix in (indices(dl["shape"]) if dl["shape"] else [None]):
+                    inp = pt.get(names[pi[(dl["id"], tuple(ix) if ix else None)]], 0)
+                    want.append(xeval(dl["target"], pt, arrays, ix) - inp)
+            if sorted(want) != g:
+                ctx.violation("dae residual is not the flat equations with every delayed element replaced by its paired input",
+                              case, expected=[str(x) for x in sorted(want)], observed=[str(x) for x in g], kind="input")
+                break
+    return verdict
+
+
+def expand_family_cases():
+    """Fixed, seed-independent models for expand_vectors=True: a vector and two matrix delays (2x3, 3x2) with legal
+    durations, and one scalar delay per kind of duration on an array element."""
+    S = {"c0": {"cat": "const", "dim": 0, "value": [2, 1]}, "p0": {"cat": "param", "dim": 0, "value": [3, 1]},
+         "uf0": {"cat": "ufix", "dim": 0}, "u0": {"cat": "ufree", "dim": 0}, "x0": {"cat": "state", "dim": 0},
+         "y0": {"cat": "alg", "dim": 0}}
+    decl0 = ["constant Real c0 = 2;", "parameter Real p0 = 3;", "input Real uf0(fixed = true);", "input Real u0;",
+             "Real x0;", "Real y0;", "parameter Real pv[2] = {1, 2};", "input Real uv[2];", "Real xs[2];", "Real av[3];"]
+    A0 = {"pv": {"cat": "param", "shape": [2]}, "uv": {"cat": "ufree", "shape": [2]}, "xs": {"cat": "state", "shape": [2]},
+          "av": {"cat": "alg", "shape": [3]}}
+    s_, e_ = (lambda n: ["s", n]), (lambda n, *ix: ["e", n, list(ix)])
+
+    def model(shape, delays):
+        A = dict(A0, am={"cat": "alg", "shape": shape})
+        Sx = dict(S)
+        for nm, a in A.items():
+            Sx[nm] = {"cat": a["cat"], "dim": 1}
+        decl = decl0 + ["Real am[%d,%d];" % tuple(shape)]
+        eqs = [["eq", ["der", s_("x0")], ["op", "+", s_("u0"), s_("uf0")]],
+               ["eq", s_("y0"), ["op", "+", ["op", "*", lit(2), s_("x0")], lit(1)]]]
+        k = 0
+        for ix in indices([2]):
+            eqs.append(["eq", ["der", e_("xs", *ix)], ["op", "+", s_("x0"), lit(ix[0])]])
+        for nm in ("av", "am"):
+            for ix in indices(A[nm]["shape"]):
+                k += 1
+                eqs.append(["eq", e_(nm, *ix), ["op", "+", ["op", "*", lit(k), s_("x0")], s_("y0")]])
+        ds = []
+        for j, (kind, a, d) in enumerate(delays):
+            if kind == "scalar":
+                tgt = "z%d" % j
+                Sx[tgt] = {"cat": "alg", "dim": 0}
+                decl.append("Real %s;" % tgt)
+                ds.append({"id": j, "target": s_(tgt), "shape": None, "expr": a, "dur": d})
+            else:
+                src = "av" if kind == "vector" else "am"
+                tgt = "w%d" % j
+                shp = A[src]["shape"]
+                A[tgt] = {"cat": "alg", "shape": shp}
+                Sx[tgt] = {"cat": "alg", "dim": 1}
+                decl.append("Real %s[%s];" % (tgt, ",".join(str(x) for x in shp)))
+                ds.append({"id": j, "target": ["a", tgt], "shape": shp, "expr": a, "dur": d})
+        lines = ["model M"] + ["  " + x for x in decl] + ["equation"]
+        lines += ["  %s = %s;" % (xrender(q[1]), xrender(q[2])) for q in eqs]
+        lines += ["  %s = delay(%s, %s);" % (xrender(dl["target"]), xrender(dl["expr"]), xrender(dl["dur"])) for dl in ds]
+        lines += ["end M;"]
+        return {"kind": "text", "stream": "expand", "name": "M", "text": "\n".join(lines) + "\n",
+                "options": {"expand_vectors": True}, "syms": Sx, "arrays": A, "xeqs": eqs, "xdelays": ds, "eqs": [], "ieqs": []}
+
+    three_a = ["op", "*", lit(3), ["a", "am"]]
+    out = [model([2, 3], [("matrix", three_a, ["op", "*", s_("p0"), s_("c0")]),
+                          ("vector", ["op", "+", ["op", "*", lit(2), ["a", "av"]], s_("x0")], ["op", "+", s_("uf0"), lit(1)]),
+                          ("scalar", s_("x0"), e_("pv", 2))]),
+           model([3, 2], [("scalar", e_("av", 2), s_("p0")), ("matrix", ["op", "+", three_a, lit(1)], lit(2))])]
+    for d in (e_("xs", 1), ["op", "+", s_("p0"), e_("av", 3)], ["der", e_("xs", 2)], e_("am", 1, 2), ["sum", "av"],
+              e_("uv", 2), ["op", "+", ["op", "*", lit(2), e_("am", 2, 1)], s_("c0")]):
+        out.append(model([2, 2], [("scalar", s_("x0"), s_("p0")), ("scalar", s_("y0"), d)]))
+    return out
 
 
 def family_cases():
@@ -1027,6 +1340,8 @@ def one_call(folder, case, store):
 
 def check_case(ctx, case, drv, rng=None):
     import random
+    if case.get("stream") == "expand":
+        return check_expand(ctx, case)
     H.quiet_pymoca()
     rng = rng or random.Random(json.dumps(case["text"]))
     folder = write_model(ctx, case)
@@ -1127,6 +1442,8 @@ def compare_model(ctx, case, ans, verdict, model, pts):
 
 
 def nontrivial(case):
+    if case.get("stream") == "expand":
+        return len(case["xdelays"]) >= 2 or any(xatoms(dl["dur"], []) for dl in case["xdelays"])
     nodes = all_delays(case)
     if len(nodes) >= 2:
         return True
@@ -1136,6 +1453,15 @@ def nontrivial(case):
 def buckets(ctx, case, verdict):
     ctx.count("stream-" + case["stream"])
     ctx.count("verdict-" + verdict)
+    if case["stream"] == "expand":
+        ctx.count("expand-verdict-" + verdict)
+        for dl in case["xdelays"]:
+            ctx.count("expand-delay-" + ("scalar" if not dl["shape"] else "vector" if len(dl["shape"]) == 1 else "matrix"))
+            for a in xatoms(dl["dur"], []):
+                c = cat_of_atom(a, case["syms"])
+                if c in DISALLOWED:
+                    ctx.count("expand-duration-on-%s-%s" % (c, "array" if a[0] != "time" and a[1] in case["arrays"] else "scalar"))
+        return
     if case["stream"] in ("simp", "cache"):
         ctx.count("%s-verdict-%s" % (case["stream"], verdict))
         for n, lp in all_delays(case):
@@ -1180,11 +1506,11 @@ def run(ctx):
         check_case(ctx, c, drv)
     quick = ctx.tier == "quick"
     plan = [("f1", 4 if quick else 40), ("f2", 3 if quick else 30), ("cache", 25 if quick else 300),
-            ("simp", 90 if quick else 1500), ("main", 220 if quick else 4000)]
+            ("simp", 90 if quick else 1500), ("expand", 60 if quick else 900), ("main", 200 if quick else 4000)]
     import random
     # the known-finding streams first; the others interleaved (shuffled), so that a run cut short by the time budget
     # on a loaded machine still covers every stream in proportion
-    for case in family_cases():  # deterministic, before anything that depends on the seed or the time budget
+    for case in family_cases() + expand_family_cases():  # deterministic: before anything seed- or budget-dependent
         verdict = check_case(ctx, case, drv, random.Random(7))
         ctx.case(case, nontrivial=True)
         buckets(ctx, case, verdict)
@@ -1196,7 +1522,7 @@ def run(ctx):
         if ctx.time_left() < 0:
             ctx.notes.append("stopped by the time budget after %d of %d cases" % (i, len(schedule)))
             break
-        case = Gen(ctx.rng, stream).make()
+        case = ExpandGen(ctx.rng).make() if stream == "expand" else Gen(ctx.rng, stream).make()
         verdict = check_case(ctx, case, drv, random.Random(ctx.rng.getrandbits(64)))
         ctx.case(case, nontrivial=nontrivial(case))
         buckets(ctx, case, verdict)
@@ -1215,6 +1541,7 @@ LEAN_RESULTS = [
     "args_preserved: outside loops every translated equation and every argument pair evaluates like its source (arbitrary nesting)",
     "loop_args_preserved: inside for-loops, per iteration, with arbitrarily nested delays: equations, vector/scalar arguments and durations evaluate like their source",
     "postcheck_invariant_under_substitution: alias elimination / eliminable variables / replaced parameter and constant values (substituted in expressions AND durations) do not change the verdict",
+    "postcheck_invariant_under_expansion: expand_vectors renames subscripted references to element symbols in expressions AND durations; with elements inheriting their array's category the verdict is unchanged",
     "cached_calls_agree: with cache=True every one of any number of successive transfer_model calls gives the compile outcome (a rejected model is never served from a cache)",
 ]
 
